@@ -901,8 +901,8 @@ impl Default for Matrix {
     }
 }
 impl Object for Matrix {
-    fn from_primitive(p: Primitive, _resolve: &impl Resolve) -> Result<Self> {
-        matrix(&mut p.into_array()?.into_iter())
+    fn from_primitive(p: Primitive, resolve: &impl Resolve) -> Result<Self> {
+        matrix(&mut p.resolve(resolve)?.into_array()?.into_iter())
     }
 }
 impl ObjectWrite for Matrix {
